@@ -536,3 +536,13 @@ func lemmaTypedGettersAgreeOnFound(st *SlimTrie, key string) (bool, bool, bool, 
 //@   ensures result0 == -1 || (0 <= result0 && int(result0) < nN(st))
 //@   ensures result1 == -1 || (0 <= result1 && int(result1) < nN(st))
 //@   ensures result2 == -1 || (0 <= result2 && int(result2) < nN(st))
+
+// ---------------------------------------------------------------------------
+// determinism of construction (C05): the comparator that orders the label bitmaps by usage. Entries with equal
+// counts are ordered by their bitmap, so the order does not depend on map iteration order (the bitmaps are map
+// keys, hence distinct). The contract pins the comparator to exactly that order.
+
+//@ func sortedBMCounts$1
+//@   property C05
+//@   requires 0 <= i && i < len(ss) && 0 <= j && j < len(ss)
+//@   ensures result == (ss[i].cnt > ss[j].cnt || (ss[i].cnt == ss[j].cnt && ss[i].bitmap17 > ss[j].bitmap17))
